@@ -4,6 +4,7 @@ import (
 	"container/list"
 	"fmt"
 	"sort"
+	"strings"
 
 	"github.com/6tail/lunar-go/SolarUtil"
 )
@@ -77,6 +78,8 @@ func c20Years(c *ctx) {
 					row["z2"] = s.GetXingzuo()
 					row["f"] = strList(s.GetFestivals())
 					row["o"] = strList(s.GetOtherFestivals())
+					// the one-line description, cut at blanks (the lexing is the driver's, the comparison TLC's)
+					row["full"] = strings.Split(s.ToFullString(), " ")
 					// the same day a year later, reached by stepping from the object whose festivals (and so weekday) were
 					// just asked for: a derived object answers like a constructed one
 					if y < 9998 && d%3 == 0 {
